@@ -5,8 +5,18 @@ Kombinationen), M is the same program with every generic function replaced by on
 instantiation (c15_lang / c15_prog). Both go through the real front end (ddpprobe) and the real kddp; they must
 agree on acceptance, and - when accepted - on whether kddp produces an executable and on stdout + exit status.
 Second family (c15_pairs): verdict pairs for ill-typed bindings of a type parameter and for the identity of
-instantiated generic Kombinationen. Positive controls: upstream's golden generics tests written in the same
-description language must print upstream's expected.txt in both renderings."""
+instantiated generic Kombinationen, also for a type definition versus its base (different types) and a type alias versus
+its target (one type). Positive controls: upstream's golden generics tests written in the same
+description language must print upstream's expected.txt in both renderings (plus one control of our own on type definitions).
+
+Type universe (c15_lang): primitives, lists, pool Kombinationen, instantiated generic Kombinationen, type parameters,
+type DEFINITIONS ('d': Meter := Zahl, Begriff := Text, Pegel := Kommazahl, Ort := Punkt; a new type, values by conversion,
+shown by an own overload of `zeige` that prints the definition's name) and type ALIASES ('a': Nummer = Zahl, Silbe = Text,
+Strecke = Meter; transparent). They are drawn as type arguments by every unit kind; the unit kind `typedef` instantiates ONE
+generic function / Kombination with a definition, its base, an alias of the base and an alias of the definition in a random
+order from several modules (patterns T-Kombination, T -> T Liste, non-generic overload for the definition next to the generic
+one), with the definition declared in the module of the generic, in a third module (`typen`) or in the calling module;
+the solo kind `samename` gives two calling modules private definitions of one name."""
 import copy
 import hashlib
 import json
@@ -64,7 +74,7 @@ def norm(s):
     s = re.sub(r'_mod_[0-9a-f]{16,}', '_mod_H', s)
     s = re.sub(r'\d+', 'N', s)
     # type names out of diagnostics, so that one defect has one signature
-    s = re.sub(r'[(\w-]*\b(Zahl|Zahlen|Kommazahl|Kommazahlen|Text|Buchstabe|Buchstaben|Wahrheitswert|Byte|VektorN|Paar|Kiste|Punkt)\b[)\w-]*( Listen?)?( Referenz)?', 'TYP', s)
+    s = re.sub(r'[(\w-]*\b(Zahl|Zahlen|Kommazahl|Kommazahlen|Text|Buchstabe|Buchstaben|Wahrheitswert|Byte|VektorN|Paar|Kiste|Punkt|Meter|Begriff|Pegel|Ort|Nummer|Silbe|Strecke|Quote|Floskel|Marke)\b[)\w-]*( Listen?)?( Referenz)?', 'TYP', s)
     s = re.sub(r'(TYP[ -]*)+', 'TYP ', s)
     return s
 
@@ -191,10 +201,17 @@ class Prog:
         r = random.Random('%d/prog/%s' % (seed, pkey))
         self.seed, self.pkey = seed, pkey
         self.layout = pick(r, LAYOUT_W)
+        if kinds == ['samename']:
+            self.layout = 'three'       # needs two calling modules that both import the declaring module
         self.spec_mode = r.choice(['overload', 'rename'])
         self.mono = r.random() < 0.4
         self.O = r.choice([1, 1, 1, 0, 0, 2])
-        self.gen = gen_mod.Gen(seed, self.layout, self.spec_mode, self.mono)
+        if kinds == ['samename']:
+            self.mono = True            # the question is about instantiations of the generic Kombination: the reference has none
+        # where the pool's type definitions live: in the module of the generic functions or in a third module (own PRNG: the
+        # other draws stay what they were)
+        self.tymod = random.Random('%d/tymod/%s' % (seed, pkey)).choice(['D', 'D', 'third'])
+        self.gen = gen_mod.Gen(seed, self.layout, self.spec_mode, self.mono, self.tymod)
         self.units = []
         self.genfail = 0
         for j in range(nunits):
@@ -208,7 +225,7 @@ class Prog:
 
     def render(self, units=None):
         units = self.units if units is None else units
-        g = gen_mod.Gen(self.seed, self.layout, self.spec_mode, self.mono)
+        g = gen_mod.Gen(self.seed, self.layout, self.spec_mode, self.mono, self.tymod)
         pr = g.assemble([copy.deepcopy(u) for u in units])
         G = pr.render('G')
         M = pr.render('M')
@@ -217,7 +234,7 @@ class Prog:
 
     def meta(self, units=None):
         units = self.units if units is None else units
-        return {'seed': self.seed, 'program': self.pkey, 'layout': self.layout, 'spec_mode': self.spec_mode, 'mono_kombinationen': self.mono, 'O': self.O,
+        return {'seed': self.seed, 'program': self.pkey, 'layout': self.layout, 'spec_mode': self.spec_mode, 'mono_kombinationen': self.mono, 'O': self.O, 'pool_type_definitions_in': 'module typen' if self.tymod == 'third' else 'declaring module',
                 'units': [{'uid': u.uid, 'kind': u.kind, 'features': sorted(gen_mod.unit_features(u))} for u in units]}
 
 
@@ -246,8 +263,8 @@ def evaluate_units(sc, name, prog, units):
 
 
 SEM_FEATS = ('caller-', 'mutual-recursion', 'recursion', 'operator-overload', 'reference-parameter', 'generic-calls-generic', 'two-type-parameters',
-             'private-generic', 'relay', 'nested-list', 'empty-body', 'deep-')
-SIG_FEATS = ('caller-', 'mutual-recursion', 'operator-overload', 'relay', 'nested-list', 'empty-body', 'deep-')
+             'private-generic', 'relay', 'nested-list', 'empty-body', 'deep-', 'typedef-', 'alias-')
+SIG_FEATS = ('caller-', 'mutual-recursion', 'operator-overload', 'relay', 'nested-list', 'empty-body', 'deep-', 'typedef-', 'alias-')
 
 
 def sem_features(u):
@@ -256,7 +273,7 @@ def sem_features(u):
 
 def sig_features(u, prog=None):
     """the features that go into a violation signature (the others are listed in meta.json of the replay directory)"""
-    fs = [f for f in gen_mod.unit_features(u) if f.startswith(SIG_FEATS)]
+    fs = [f for f in gen_mod.unit_features(u) if f.startswith(SIG_FEATS) and f != 'typedef-inside-kombination-or-list']     # (coverage only)
     if prog is not None and prog.layout == 'hidden' and u.sites['M']:
         fs.append('caller-does-not-import-declaring-module')
     return sorted(fs)
@@ -337,12 +354,16 @@ def run(tier):
     vlib.ensure_build(asan=False)
     chk = Check(PID, tier)
     seed = chk.seed
-    nprog, nsolo, npairs = (26, 10, 36) if tier == "quick" else (400, 40, 300)
+    nprog, nsolo, npairs = (26, 12, 52) if tier == "quick" else (400, 42, 390)
     if os.environ.get('VERIF_C15_N'):      # development knob only
         nprog, nsolo, npairs = [int(x) for x in os.environ['VERIF_C15_N'].split(',')]
     chk.rule = ("case = one unit (helpers + 1..3 generic functions + call sites in the declaring module, an importing module and a module importing the importer) "
                 "printed as G (generic) and M (one textual specialisation per instantiation; aliases overloaded by exact type or renamed; optionally generic "
-                "Kombinationen replaced by monomorphic ones); 4 units per compiled program, a disagreeing program is re-run unit by unit; plus verdict pairs "
+                "Kombinationen replaced by monomorphic ones); concrete types: primitives, lists, Kombinationen, instantiated generic Kombinationen, type "
+                "DEFINITIONS (of Zahl, Text, Kommazahl, of a Kombination; values by conversion, shown by an overload of `zeige` that prints the definition's "
+                "name) and type ALIASES (of primitives, of a definition; transparent: an instantiation with an alias is the instantiation with its target), "
+                "declared in the module of the generic function, in a third module or in the calling module; "
+                "4 units per compiled program, a disagreeing program is re-run unit by unit; plus verdict pairs "
                 "(ok must be accepted, bad - differing in one argument/type - must be rejected with a diagnostic). Oracle: G and M agree on front-end acceptance, "
                 "on kddp producing an executable, on stdout and exit status. distinct = distinct source texts; non-trivial = not rejected on both sides.")
     chk.assumptions = [
@@ -359,6 +380,17 @@ def run(tier):
         "main imports decl before mitte (in the reverse order the code generator crashes on public functions of mitte whose signature mentions a Kombination of decl: plain-module defect, not judged here)",
         "Kombinationen of the pool are declared with masculine/feminine articles (a neuter type cannot be written as a field type: 'dem Paar x' is refused by the pinned parser)",
         "a disagreement is confirmed by rebuilding the single unit alone; if it does not reproduce it is counted inconclusive (flaky), never reported",
+        "type definitions are of primitives (Zahl, Text, Kommazahl) and of one Kombination; no definition of a list type (converting a list to such a type "
+        "crashes the pinned code generator in VisitCastExpr - plain-module defect, not judged here); values of a definition are only moved, compared, "
+        "converted to the base and back, never computed with; two values of a definition of Text are never concatenated (known finding of C02)",
+        "a type alias is the same type as its target: M has ONE specialisation (spelled with the target) and one `zeige` overload for both; only declarations "
+        "and conversions at the call sites spell the alias name",
+        "a type definition declared in the CALLING module: the declaring module of the generic function cannot name it, so M holds that specialisation in the "
+        "calling module (monomorphic Kombinationen likewise); such generic bodies name only their parameters, type parameters and public Kombinationen "
+        "(no private helper, no `zeige` on values of the type parameter), so the text means the same in both modules",
+        "type definitions and aliases have masculine or feminine names (neuter types cannot be field types, see above); two modules never declare "
+        "different private types of the same NAME that are both used as type argument of one generic Kombination (kddp: 'redefinition of type', reported "
+        "separately by a dedicated solo unit)",
     ]
     controls_bad = []
     with Scratch("c15") as sc:
@@ -421,6 +453,12 @@ def run(tier):
                     continue
                 chk.count('programs')
                 chk.count('layout_' + p.layout)
+                pf = set(f for u in p.units for f in gen_mod.unit_features(u))
+                for f in ('typedef-instantiation', 'alias-instantiation', 'typedef-inside-kombination-or-list', 'typedef-declared-in-caller', 'typedef-overload-vs-generic'):
+                    if f in pf:
+                        chk.count('programs_with_' + f)
+                if p.tymod == 'third':
+                    chk.count('programs_with_pool_type_definitions_in_third_module')
                 if ev['verdict'] == 'genfail':
                     chk.count('generator_model_errors')
                     continue
@@ -559,7 +597,7 @@ def judge_pair(chk, c, ok, bad):
 
 def norm_construct(s):
     """type names out of the construct so that one defect has one signature"""
-    return re.sub(r'\b(Zahl|Kommazahl|Text|Buchstabe|Wahrheitswert|Byte)\b', 'X', s)
+    return re.sub(r'\b(Zahl|Kommazahl|Text|Buchstabe|Wahrheitswert|Byte)\b', 'X', s)     # (the families on type definitions name no concrete type)
 
 
 def report(chk, sig, G, M, ev, meta):
